@@ -220,15 +220,15 @@ def run_case(case):
             res.emit("hx.getat %s %s" % (hx(state[1]), hx(key)), out)
             res.tags.add("raw-level-read-tied")
             if r.free_sync:
-                res.emit("hx.fget %s" % hx(key), out)
+                res.emit("hx.fget 0 %s" % hx(key), out)
         if tg == "0" and kind in ("set", "del") and r.free_sync:
             # the tree-free executor on its own copy of the damaged database: same outcome, same root, database and counts
-            res.emit("hx.fop %s %s" % (hx(key), (probe[2] or "-") if kind == "set" else "none"),
+            res.emit("hx.fop 0 %s %s" % (hx(key), (probe[2] or "-") if kind == "set" else "none"),
                      out if exc is not None else "ok")
-            res.emit("hx.froot", hx(target.root_hash))
+            res.emit("hx.froot 0", hx(target.root_hash))
             res.emit("hx.fdb", hexlib.fmt_db(db))
             if target.is_pruning:
-                res.emit("hx.fcounts", hexlib.fmt_counts(target.ref_count))
+                res.emit("hx.fcounts 0", hexlib.fmt_counts(target.ref_count))
             res.tags.add("tree-free-executor-tied")
         if kind == "exists" and exc is None:
             # the model answers exists() through get(): compare the value's emptiness
